@@ -34,6 +34,8 @@ Round 7: a kind served by several strategies told apart by a further test of _co
 left out of the value is remembered for pack on that path (e'); a sized read is never rejected by
 the cursor position alone; includes the evaluator discipline of C09 (sizes given as expressions).
 Round 8: strategies read the field name at call time; includes the sequence language of C08.
+Round 9: includes the operator-table rule of C09 (a size written `7 - used` keeps its operands in
+the written order: the reflected methods swap them back).
 """
 import ast
 
@@ -623,6 +625,13 @@ def check(ctx):
     # every operator to its operands in the declared order (C09 d)
     from .c09 import check_exec
     check_exec(ctx)
+    # Round 9: ... and the expression object built for ``7 - used`` holds its operands in the
+    # written order: the reflected methods swap them back (C09 a, b)
+    from .c09 import check_tables
+    try:
+        check_tables(ctx)
+    except Undecided as e:
+        ctx.undecided('R9-operator-dunders', ('bisturi/deferred.py', '_defer_operations_of'), 'operator tables', str(e), 0)
     # Round 8: Data(n).repeated(count) is count sized reads, one per element (C08 sequence language)
     from .c08 import check_sequence_unpack
     try:
